@@ -174,6 +174,46 @@ def check(fx, rep, tier):
     rep.oblige(only_equal, "R14.2", "panic-arms-are-equal-arms", mm.arms[0].where(), f"merge panics in arm(s) {[a.label() for a in panic_arms]}; only the (unreachable) Equal arms may")
     rep.extra["merge_panic_arms"] = [a.label() for a in panic_arms]
 
+    # equalities are recorded on both of their sides: every addition of an expression to an inference set goes through the one
+    # function that mirrors an `Equal` onto the other variable (a helper that inserts directly stores a one-sided equality, which
+    # the set-up loop may then never resolve)
+    STATE = "tc::state::TypeCheckerState"
+    adders = {}
+    for b in fx.fn_bodies():
+        if not b.get("hir") or b.get("from_expansion"):
+            continue
+        for n, ps in F.calls(b["hir"]["value"]):
+            if n.get("k") != "MethodCall" or n["method"] not in ("insert", "extend"):
+                continue
+            rt = (n.get("recv_ty") or "").replace("&mut ", "").replace("&", "").strip()
+            if not rt.startswith("std::collections::HashSet<tc::expression::TypeExpression"):
+                continue  # the set itself (not the table of sets)
+            # only insertions into sets reached from the state's `inferences` table
+            recv_t = str(T.term(n["recv"], T.Env()))
+            if "inferences" not in recv_t:
+                continue
+            adders.setdefault(b["def"], []).append(n)
+    mirrors = []
+    for fn, ns in adders.items():
+        b = fx.body(fn)
+        has_eq_branch = any(x.get("k") == "Let" and (F.pat_variants(x["pat"]) or set()) == {(TE, "Equal")} for x, _ in F.walk(b["hir"]["value"])) or any(
+            (F.pat_variants(a["pat"]) or set()) == {(TE, "Equal")} for m, _ in F.exprs(b["hir"]["value"], "Match") for a in m["arms"]
+        )
+        if has_eq_branch and len(ns) >= 2:
+            mirrors.append(fn)
+    rep.oblige(len(mirrors) == 1, "R14.2", "one-mirroring-adder", "-", f"expected exactly one function that adds an expression to an inference set and mirrors equalities onto the other variable; found {sorted(mirrors)}")
+    for fn in sorted(adders):
+        if fn in mirrors or (fx.body(fn) or {}).get("impl_self") != STATE and "tc::" not in fn:
+            continue
+        rep.oblige(
+            fn in mirrors,
+            "R14.2",
+            f"inference-adder:{F.strip_generics(fn)}",
+            F.loc(fx.body(fn)["span"]),
+            f"`{fn}` adds expressions to an inference set directly instead of going through {sorted(mirrors)}: an equality added this way is recorded on one side only, so whether it is ever resolved depends on which side the unifier happens to read",
+            sample={"rule": "R14.2", "fn": fn},
+        )
+
     # ---------------------------------------------------------------- R14.3
     n_ctor = 0
     for V, fields in mm.variant_fields.items():
